@@ -113,6 +113,9 @@ class TransposeDiatonic(NoteTransformer):
             new_note.type = 's'
             new_note.val = new_val
             return new_note
+        else:
+            # rests, continuations and the note systems that are not transposed are kept as they are
+            return note.copy()
 
 
 class TransposeChromatic(NoteTransformer):
